@@ -170,13 +170,8 @@ def send_update_message(peer_ip):
                         if '.' in vau.strip().split(':')[0]:
                             ext_community.append([259, vau.strip()])
                         else:
-                            if res['peer']['capability']['remote']:
-                                four_bytes_as = res['peer']['capability']['remote'].get('four_bytes_as')
-                            else:
-                                return flask.jsonify({
-                                    'status': False,
-                                    'code': 'please check peer state'
-                                })
+                            # a peer that advertised no capability at all does not do 4-octet AS numbers
+                            four_bytes_as = (res['peer']['capability']['remote'] or {}).get('four_bytes_as')
                             nums = vau.strip().split(':', 1)
                             if int(nums[0].strip()) > 65535 and four_bytes_as:
                                 ext_community.append([515, vau.strip()])
@@ -346,13 +341,8 @@ def json_to_bin(peer_ip):
                         if '.' in vau.strip().split(':')[0]:
                             ext_community.append([259, vau.strip()])
                         else:
-                            if res['peer']['capability']['remote']:
-                                four_bytes_as = res['peer']['capability']['remote'].get('four_bytes_as')
-                            else:
-                                return flask.jsonify({
-                                    'status': False,
-                                    'code': 'please check peer state'
-                                })
+                            # a peer that advertised no capability at all does not do 4-octet AS numbers
+                            four_bytes_as = (res['peer']['capability']['remote'] or {}).get('four_bytes_as')
                             nums = vau.strip().split(':', 1)
                             if int(nums[0].strip()) > 65535 and four_bytes_as:
                                 ext_community.append([515, vau.strip()])
